@@ -205,9 +205,10 @@ func (d *Decoder) Decode(v interface{}) error {
 // DecodeContext reads the next JSON-encoded value from its
 // input and stores it in the value pointed to by v with context.Context.
 func (d *Decoder) DecodeContext(ctx context.Context, v interface{}) error {
-	d.s.Option.Flags |= decoder.ContextOption
-	d.s.Option.Context = ctx
-	return d.DecodeWithOption(v)
+	return d.DecodeWithOption(v, func(opt *DecodeOption) {
+		opt.Flags |= decoder.ContextOption
+		opt.Context = ctx
+	})
 }
 
 func (d *Decoder) DecodeWithOption(v interface{}, optFuncs ...DecodeOptionFunc) error {
@@ -233,6 +234,7 @@ func (d *Decoder) DecodeWithOption(v interface{}, optFuncs ...DecodeOptionFunc) 
 		return err
 	}
 	s := d.s
+	*s.Option = decoder.Option{} // the options of an earlier call on this Decoder must not leak into this one
 	for _, optFunc := range optFuncs {
 		optFunc(s.Option)
 	}
